@@ -32,7 +32,7 @@ struct Laws
                 fail("C06|identity|" + c.name, "distance from a state to itself is " + vf::jnum(d), rj(ca, cb));
             return d;
         }
-        if (d == 0 && !sp->equalStates(a, b))
+        if (d == 0 && !sp->equalStates(a, b) && !c.pseudoMetric)
         {
             long double sep = refSeparation(sp, ca, cb);
             if (sep > c.tol)
@@ -167,6 +167,8 @@ int main(int argc, char **argv)
         auto n = spaceNames(a.thorough());
         for (auto &x : nonMetricWrapperNames())
             n.push_back(x);
+        n.push_back("CompoundZeroW");
+        n.push_back("CompoundZeroLast");
         return n;
     };
     H.run = [](const std::string &job, const vf::Args &a, vf::Report &r) {
